@@ -225,7 +225,8 @@ fn exec_step<P: Px>(r: &mut Resizer, s: &Step, k: usize, stats: &mut Stats, viol
         _ => {}
     }
     let src = make_pixels::<P>(c.sw, c.sh, &c.content, c.alpha.as_ref());
-    let mut sb = Backing::<P>::new(s.sp, c.sw, c.sh, 0xAAAA);
+    let spat = if s.aux % 3 == 0 { 0xAAAA | NONFINITE } else { 0xAAAA };
+    let mut sb = Backing::<P>::new(s.sp, c.sw, c.sh, spat);
     sb.put(&src);
     let mut db = Backing::<P>::new(s.dp, c.dw, c.dh, 0xBBBB);
     let custom = c.alg.filt().map_or(false, |f| f.is_custom());
@@ -278,7 +279,7 @@ fn exec_step<P: Px>(r: &mut Resizer, s: &Step, k: usize, stats: &mut Stats, viol
         );
     }
     {
-        let mut check = Backing::<P>::new(s.sp, c.sw, c.sh, 0xAAAA);
+        let mut check = Backing::<P>::new(s.sp, c.sw, c.sh, spat);
         check.put(&src);
         if P::bits_of(&check.buf) != P::bits_of(&sb.buf) {
             viols.push(Viol::new("source_modified", format!("{}: the source backing store changed", what)).sig(json!({"pt": P::NAME})));
